@@ -392,6 +392,9 @@ def validate(prog, cj, model, shapes, opts: Options, ref_fn=None, pre=None) -> d
     if opts.selfcheck:
         r = selfcheck(prog, cj, model, shapes, dtypes, pos_names, opts)
         sel = r
+        if r.get("ort_rejects"):
+            out.update(status="candidate", kind="invalid_model", reason="ONNX Runtime rejects the model: " + r["ort_rejects"], selfcheck=sel)
+            return _replay_invalid(prog, cj, model, shapes, dtypes, pos_names, out, opts)
         if r["failed"]:
             out.update(status="selfcheck_failed", reason="; ".join(r["failed"])[:400], selfcheck=sel)
             return out
@@ -513,6 +516,10 @@ def selfcheck(prog, cj, model, shapes, dtypes, pos_names, opts):
         except Exception as e:
             ort_outs = None
             ort_err = f"{type(e).__name__}: {str(e)[:600]}"
+            if "INVALID_GRAPH" in ort_err or "Type Error" in ort_err or "INVALID_PROTOBUF" in ort_err:
+                # ONNX Runtime refuses the model itself (not a missing kernel, not an unsupported opset)
+                res["ort_rejects"] = ort_err[:300]
+                return res
         try:
             mine, _ = onnx_sem.run_model(model, feeds_T, unroll=64)
             mine_np = [_T_to_np(t) for t in mine]
